@@ -158,7 +158,7 @@ func (v recVerifier) Verify(msg, sig []byte) bool {
 var names = []string{"a", "b", "sum.golang.org", "localhost.localdev/sumdb", "PeterNeumann", "é", "x/y", "—"}
 var badNames = []string{"", "a b", "a+b", "a\tb", "a b", "a\nb", "\xff"}
 
-var textLines = []string{"hello", "", "— a AAAAAAE=", "— PeterNeumann x08go/ZJkuBS9UG/SffcvIAQxVBtiFupLLr8pAcElZInNIuGUgYN1FFYC2pZSNXgKvqfqdngotpRZb6KE6RyyBwJnAM=", "go.sum database tree", "42", "é日本語", " ", "—", "— ", "x\ty", "x\x00", "\xff\xfe", "a\rb", "If you think cryptography is the answer to your problem,", "— b AAAAAAA="}
+var textLines = []string{"replacement \ufffd", "del \x7f", "c1 \u0085 \u009b", "sep \u2028", "bom \ufeff", "hello", "", "— a AAAAAAE=", "— PeterNeumann x08go/ZJkuBS9UG/SffcvIAQxVBtiFupLLr8pAcElZInNIuGUgYN1FFYC2pZSNXgKvqfqdngotpRZb6KE6RyyBwJnAM=", "go.sum database tree", "42", "é日本語", " ", "—", "— ", "x\ty", "x\x00", "\xff\xfe", "a\rb", "If you think cryptography is the answer to your problem,", "— b AAAAAAA="}
 
 func genKey(t *rapid.T, label string) keySpec {
 	k := keySpec{Name: names[rapid.IntRange(0, len(names)-1).Draw(t, label+"name")], ID: rapid.IntRange(0, 3).Draw(t, label+"id")}
@@ -179,6 +179,9 @@ func genText(t *rapid.T) string {
 	var sb strings.Builder
 	for i := 0; i < n; i++ {
 		l := textLines[rapid.IntRange(0, len(textLines)-1).Draw(t, "line")]
+		if gen.Chance(t, 2, "longline") {
+			l = strings.Repeat("long line ", rapid.IntRange(100, 900).Draw(t, "linelen"))
+		}
 		if !hostile && !ref.ValidText(l+"\n") {
 			l = "clean"
 		}
@@ -193,7 +196,7 @@ func genText(t *rapid.T) string {
 	return sb.String()
 }
 
-var mutOps = []string{"empty-sig", "flip", "insert", "delete", "dup-line", "del-line", "move-line", "swap-lines", "append-sigs", "insert-blank", "change-name", "change-keyid", "change-b64", "truncate", "append-text-line"}
+var mutOps = []string{"long-sig-line", "empty-sig", "flip", "insert", "delete", "dup-line", "del-line", "move-line", "swap-lines", "append-sigs", "insert-blank", "change-name", "change-keyid", "change-b64", "truncate", "append-text-line"}
 
 func genCase(t *rapid.T) noteCase {
 	c := noteCase{Text: genText(t)}
@@ -352,6 +355,27 @@ func mutate(msg []byte, m mutation) []byte {
 				out[k] = strings.Join(f, " ") + "\n"
 				return []byte(strings.Join(out, ""))
 			}
+		}
+	case "long-sig-line":
+		// a syntactically valid signature line by an unknown key whose signature is very long (line lengths
+		// around the 64 KiB mark), placed before the last line(s) of the signature block
+		if len(lines) > 0 {
+			n := []int{3000, 49100, 49200, 70000}[m.Pos2%4]
+			raw := make([]byte, 4+n)
+			raw[0], raw[1], raw[2], raw[3] = 0xde, 0xad, 0xbe, 0xef
+			for i := 4; i < len(raw); i++ {
+				raw[i] = byte(i * 7)
+			}
+			long := "— bigkey " + base64.StdEncoding.EncodeToString(raw) + "\n"
+			k := len(lines) - 1 - m.Pos%2
+			if k < 0 {
+				k = 0
+			}
+			if !strings.HasPrefix(lines[k], "— ") {
+				k = len(lines)
+			}
+			out := append(append(append([]string{}, lines[:k]...), long), lines[k:]...)
+			return []byte(strings.Join(out, ""))
 		}
 	case "empty-sig":
 		// a signature line that carries only the 4-byte key id (of an existing line, or id 0)
